@@ -12,6 +12,13 @@
 //                               non-trivial element (user-provided copy/move/destructor) that counts live
 //                               objects and flags every use of a moved-from or destroyed value; after every
 //                               call live objects == size(s) + size(t), at the end of the history none is left
+//            fbt_<cmp>          flat_set<TK, bvec<TK, cap>>: the tracked key over a STD container (std::vector behind an adaptor
+//                               that adds the capacity / iterator preconditions): the control for the two above
+//            sss_<cmp>, fss_<cmp>, fbs_<cmp>  static_set / flat_set over static_vector / flat_set over bvec with the key
+//                               type SK = a std::string too long for the small-string buffer (defaulted copy / move: the
+//                               library's own move assignment, which empties the source -- also on a self-move)
+//            After every erase(key) / erase(pos) / erase(first, last) that removed nothing the TK families print
+//            "touched <n>": the number of element objects the call copied, moved or assigned to (the property: 0)
 //            fms_<cmp>          etl::flat_multiset<int, etl::static_vector<int, 8>, Cmp>: "<config> <n> k1..kn"
 //   cmp    = less | greater | tless (etl::less<>, heterogeneous lookups) | half (a/2 < b/2: equivalence != equality)
 //            | tgreater (etl::greater<>: the second transparent comparator, descending; ss / fsv at capacity 3 and 8)
@@ -33,6 +40,8 @@
 
 #include <algorithm>
 #include <set>
+#include <string>
+#include <vector>
 
 #include <etl/algorithm.hpp>
 #include <etl/flat_set.hpp>
@@ -49,10 +58,13 @@ namespace {
 // ---- the tracked key type ---------------------------------------------------------------
 // state: 1 = alive, 2 = moved-from, 0 = destroyed.  `bad` counts every read of a value that is not alive,
 // every assignment to / destruction of a destroyed object.  A moved-from object gets the value -777 so
-// that a stale read also shows in the printed contents.
+// that a stale read also shows in the printed contents.  The move assignment TRANSFERS: it takes the source's value
+// and then resets the source, without a self-assignment test (like libstdc++'s std::string with heap storage): an
+// `x = etl::move(x)` leaves x moved-from.  `touched` counts every copy / move construction and every assignment.
 struct TK {
-    static inline long live = 0;
-    static inline long bad  = 0;
+    static inline long live    = 0;
+    static inline long bad     = 0;
+    static inline long touched = 0;
     int v;
     int state;
     TK(int x) noexcept : v(x), state(1) { ++live; } // NOLINT implicit: keys are written as ints in the cases
@@ -60,6 +72,7 @@ struct TK {
     {
         if (o.state != 1) { ++bad; }
         ++live;
+        ++touched;
     }
     TK(TK&& o) noexcept : v(o.v), state(1)
     {
@@ -67,23 +80,24 @@ struct TK {
         o.state = 2;
         o.v     = -777;
         ++live;
+        ++touched;
     }
     auto operator=(TK const& o) noexcept -> TK&
     {
         if (o.state != 1 || state == 0) { ++bad; }
         v     = o.v;
         state = 1;
+        ++touched;
         return *this;
     }
     auto operator=(TK&& o) noexcept -> TK&
     {
         if (o.state != 1 || state == 0) { ++bad; }
-        if (this != &o) {
-            v       = o.v;
-            state   = 1;
-            o.state = 2;
-            o.v     = -777;
-        }
+        v       = o.v;
+        state   = 1;
+        o.state = 2; // take, then reset the source: on a self-move the reset wins
+        o.v     = -777;
+        ++touched;
         return *this;
     }
     ~TK()
@@ -103,10 +117,31 @@ struct TK {
     friend auto operator!=(TK const& a, TK const& b) noexcept -> bool { return a.get() != b.get(); }
 };
 
+// ---- the string key type -------------------------------------------------------------------
+// A std::string that does not fit the small-string buffer, so that copy / move really allocate and transfer; the
+// special members are the library's (defaulted).  The encoding keeps the order of the ints (-16 .. 40); anything
+// that is not an encoded key (an emptied, moved-from string) prints as -888.
+struct SK {
+    static constexpr char const* prefix = "a-key-that-is-longer-than-the-small-string-buffer-";
+    static constexpr std::size_t plen   = 50;
+    std::string s;
+    SK(int x) : s(prefix) { s.push_back(static_cast<char>('A' + 16 + x)); } // NOLINT implicit, like TK
+    [[nodiscard]] auto get() const -> int
+    {
+        if (s.size() != plen + 1 || s.compare(0, plen, prefix) != 0) { return -888; }
+        return static_cast<int>(s.back()) - 'A' - 16;
+    }
+    friend auto operator<(SK const& a, SK const& b) -> bool { return a.s < b.s; }
+    friend auto operator>(SK const& a, SK const& b) -> bool { return a.s > b.s; }
+    friend auto operator==(SK const& a, SK const& b) -> bool { return a.s == b.s; }
+    friend auto operator!=(SK const& a, SK const& b) -> bool { return a.s != b.s; }
+};
+
 inline auto as_int(int x) -> int { return x; }
 inline auto as_int(TK const& x) -> int { return x.get(); }
+inline auto as_int(SK const& x) -> int { return x.get(); }
 template <typename T>
-concept KeyLike = std::is_same_v<T, int> || std::is_same_v<T, TK>;
+concept KeyLike = std::is_same_v<T, int> || std::is_same_v<T, TK> || std::is_same_v<T, SK>;
 
 // ---- comparators ------------------------------------------------------------------------
 struct half_less {
@@ -252,6 +287,86 @@ struct ipv_vector {
     etl::inplace_vector<T, N> v{};
 };
 
+// ---- the same adaptor over a STD container: std::vector plus the capacity / iterator preconditions the model has.
+// The control for static_vector: erase(first, last) is std::vector's own ----
+template <typename T, std::size_t N>
+struct bvec {
+    using value_type             = T;
+    using size_type              = std::size_t;
+    using difference_type        = std::ptrdiff_t;
+    using reference              = T&;
+    using const_reference        = T const&;
+    using iterator               = T*;
+    using const_iterator         = T const*;
+    using reverse_iterator       = etl::reverse_iterator<iterator>;
+    using const_reverse_iterator = etl::reverse_iterator<const_iterator>;
+
+    bvec() { v.reserve(N); }
+    template <typename It>
+    bvec(It first, It last)
+    {
+        v.reserve(N);
+        TETL_PRECONDITION(static_cast<size_type>(last - first) <= N);
+        for (; first != last; ++first) { v.emplace_back(*first); }
+    }
+    bvec(bvec const& o) { v.reserve(N); v = o.v; }
+    bvec(bvec&& o) noexcept : v(std::move(o.v)) { o.v.clear(); }
+    auto operator=(bvec const& o) -> bvec&
+    {
+        if (this != &o) { v = o.v; }
+        return *this;
+    }
+    auto operator=(bvec&& o) noexcept -> bvec&
+    {
+        if (this != &o) {
+            v = std::move(o.v);
+            o.v.clear();
+        }
+        return *this;
+    }
+    friend auto swap(bvec& a, bvec& b) noexcept -> void { a.v.swap(b.v); }
+
+    auto begin() noexcept -> iterator { return v.data(); }
+    auto begin() const noexcept -> const_iterator { return v.data(); }
+    auto end() noexcept -> iterator { return v.data() + v.size(); }
+    auto end() const noexcept -> const_iterator { return v.data() + v.size(); }
+    auto rbegin() noexcept -> reverse_iterator { return reverse_iterator(end()); }
+    auto rbegin() const noexcept -> const_reverse_iterator { return const_reverse_iterator(end()); }
+    auto rend() noexcept -> reverse_iterator { return reverse_iterator(begin()); }
+    auto rend() const noexcept -> const_reverse_iterator { return const_reverse_iterator(begin()); }
+    auto crbegin() const noexcept -> const_reverse_iterator { return rbegin(); }
+    auto crend() const noexcept -> const_reverse_iterator { return rend(); }
+    [[nodiscard]] auto empty() const noexcept -> bool { return v.empty(); }
+    [[nodiscard]] auto size() const noexcept -> size_type { return v.size(); }
+    [[nodiscard]] auto max_size() const noexcept -> size_type { return N; }
+    auto clear() noexcept -> void { v.clear(); }
+
+    template <typename... Args>
+    auto emplace(const_iterator pos, Args&&... args) -> iterator
+    {
+        TETL_PRECONDITION(size() != max_size());
+        auto const idx = pos - begin();
+        v.emplace(v.begin() + idx, etl::forward<Args>(args)...);
+        return begin() + idx;
+    }
+    auto erase(const_iterator first, const_iterator last) -> iterator
+    {
+        TETL_PRECONDITION(begin() <= first and first <= end());
+        TETL_PRECONDITION(begin() <= last and last <= end());
+        TETL_PRECONDITION(first <= last);
+        auto const idx = first - begin();
+        v.erase(v.begin() + idx, v.begin() + (last - begin()));
+        return begin() + idx;
+    }
+    auto erase(const_iterator pos) -> iterator
+    {
+        TETL_PRECONDITION(begin() <= pos and pos <= end());
+        return erase(pos, pos + 1);
+    }
+
+    std::vector<T> v{};
+};
+
 // Runs f with the contract handler armed; true = a TETL_PRECONDITION fired (f was left by longjmp).
 // Not inlined and without locals of its own, so that everything f touches lives in the caller's
 // memory across the longjmp.
@@ -304,6 +419,12 @@ bool sorted_unique_under(std::vector<int> const& v, Cmp cmp)
 }
 
 enum class Kind { static_set, flat_set };
+
+// the erase calls that go straight to the backing vector (erase_if = remove_if + erase of the tail is not one)
+inline auto is_vector_erase(std::string const& code) -> bool
+{
+    return code == "ek" || code == "ep" || code == "epc" || code == "er";
+}
 
 template <typename S, typename K>
 void lookups(Out& o, S const& cs, S& s, K const& key)
@@ -427,6 +548,8 @@ void run_impl(Toks in, Out& out, std::size_t cap)
         }
         bool const odd = (in.i & 1U) != 0U; // alternates between equivalent routes through the interface
         step.tok(code);
+        auto const size_before = s.size();
+        TK::touched            = 0;
         auto call = [&]() {
             if (code == "i" || code == "im" || code == "ic") {
                 typename S::value_type kv(k);
@@ -537,6 +660,8 @@ void run_impl(Toks in, Out& out, std::size_t cap)
         }
         contents(step, s);
         if constexpr (tracked) {
+            // an erase that removed nothing: how many element objects did the call copy / move / assign to
+            if (!fired && is_vector_erase(code) && s.size() == size_before) { step.tok("touched").num(TK::touched); }
             // a longjmp out of a fired precondition skips destructors of temporaries: no accounting afterwards
             if (!fired && TK::live != static_cast<long>(s.size() + t.size())) { step.tok("live-objects-differ"); }
         }
@@ -556,7 +681,7 @@ void run_impl(Toks in, Out& out, std::size_t cap)
 
 // ---- the same history on std::set, bounded by cap -----------------------------------------
 template <Kind K, typename R, typename Cmp, bool Transparent>
-void run_ref(Toks in, Out& out, std::size_t cap)
+void run_ref(Toks in, Out& out, std::size_t cap, bool counted = false)
 {
     auto mk = [](bool second) {
         if constexpr (std::is_same_v<Cmp, dyn_less>) {
@@ -583,6 +708,7 @@ void run_ref(Toks in, Out& out, std::size_t cap)
         Out step;
         step.tok(code);
         bool fired = false;
+        auto const size_before = s.size();
         if (code == "i" || code == "e" || code == "im" || code == "ic") {
             int k = static_cast<int>(in.num());
             if (bounded_insert(k, step, true) == 1) {
@@ -698,6 +824,9 @@ void run_ref(Toks in, Out& out, std::size_t cap)
             stopped = true;
         }
         contents(step, s);
+        // [associative.reqmts]: an erase that removes nothing has no effect; std::set (node based) never assigns to
+        // an element at all
+        if (counted && !fired && is_vector_erase(code) && s.size() == size_before) { step.tok("touched").num(0); }
         out.tok(step.s);
     }
     if (na) {
@@ -736,14 +865,14 @@ bool dispatch_cap(std::string const& fam, Toks& in, Out& impl, Out& ref)
     if (fam == "sst") {
         using S = etl::static_set<TK, Cap, TkCmp>;
         run_impl<Kind::static_set, S, void, Transparent>(in, impl, Cap);
-        run_ref<Kind::static_set, R, StdCmp, Transparent>(in, ref, Cap);
+        run_ref<Kind::static_set, R, StdCmp, Transparent>(in, ref, Cap, true);
         return true;
     }
     if (fam == "fst") {
         using C = etl::static_vector<TK, Cap>;
         using S = etl::flat_set<TK, C, TkCmp>;
         run_impl<Kind::flat_set, S, C, Transparent>(in, impl, Cap);
-        run_ref<Kind::flat_set, R, StdCmp, Transparent>(in, ref, Cap);
+        run_ref<Kind::flat_set, R, StdCmp, Transparent>(in, ref, Cap, true);
         return true;
     }
     }
@@ -761,6 +890,48 @@ bool dispatch(std::string const& fam, Toks& in, Out& impl, Out& ref)
     case 4: return dispatch_cap<EtlCmp, TkCmp, StdCmp, Transparent, 4>(fam, in, impl, ref);
     case 8: return dispatch_cap<EtlCmp, TkCmp, StdCmp, Transparent, 8>(fam, in, impl, ref);
 
+    default: return false;
+    }
+}
+
+// ---- the families added for key types whose move assignment transfers state (parts 4 and 5) ----
+template <typename SkCmp, typename TkCmp, typename StdCmp, bool Transparent>
+bool dispatch_keys(std::string const& fam, Toks& in, Out& impl, Out& ref)
+{
+    using R = std::set<int, StdCmp>;
+    auto go = [&]<std::size_t Cap>() {
+        if (fam == "sss") {
+            using S = etl::static_set<SK, Cap, SkCmp>;
+            run_impl<Kind::static_set, S, void, Transparent>(in, impl, Cap);
+            run_ref<Kind::static_set, R, StdCmp, Transparent>(in, ref, Cap);
+            return true;
+        }
+        if (fam == "fss") {
+            using C = etl::static_vector<SK, Cap>;
+            using S = etl::flat_set<SK, C, SkCmp>;
+            run_impl<Kind::flat_set, S, C, Transparent>(in, impl, Cap);
+            run_ref<Kind::flat_set, R, StdCmp, Transparent>(in, ref, Cap);
+            return true;
+        }
+        if (fam == "fbs") {
+            using C = bvec<SK, Cap>;
+            using S = etl::flat_set<SK, C, SkCmp>;
+            run_impl<Kind::flat_set, S, C, Transparent>(in, impl, Cap);
+            run_ref<Kind::flat_set, R, StdCmp, Transparent>(in, ref, Cap);
+            return true;
+        }
+        if (fam == "fbt") {
+            using C = bvec<TK, Cap>;
+            using S = etl::flat_set<TK, C, TkCmp>;
+            run_impl<Kind::flat_set, S, C, Transparent>(in, impl, Cap);
+            run_ref<Kind::flat_set, R, StdCmp, Transparent>(in, ref, Cap, true);
+            return true;
+        }
+        return false;
+    };
+    switch (in.num()) {
+    case 3: return go.template operator()<3>();
+    case 8: return go.template operator()<8>();
     default: return false;
     }
 }
@@ -823,6 +994,10 @@ bool part_tless(std::string const& fam, Toks& in, Out& impl, Out& ref);
 bool part_half(std::string const& fam, Toks& in, Out& impl, Out& ref);
 bool part_dyn(std::string const& fam, Toks& in, Out& impl, Out& ref);
 bool part_tgreater(std::string const& fam, Toks& in, Out& impl, Out& ref);
+bool keys_less(std::string const& fam, Toks& in, Out& impl, Out& ref);
+bool keys_greater(std::string const& fam, Toks& in, Out& impl, Out& ref);
+bool keys_tless(std::string const& fam, Toks& in, Out& impl, Out& ref);
+bool keys_half(std::string const& fam, Toks& in, Out& impl, Out& ref);
 } // namespace c09
 
 #if C09_HAS(0)
@@ -901,6 +1076,27 @@ bool c09::part_half(std::string const& fam, Toks& in, Out& impl, Out& ref)
 }
 #endif
 
+#if C09_HAS(4)
+bool c09::keys_less(std::string const& fam, Toks& in, Out& impl, Out& ref)
+{
+    return dispatch_keys<etl::less<SK>, etl::less<TK>, std::less<int>, false>(fam, in, impl, ref);
+}
+bool c09::keys_greater(std::string const& fam, Toks& in, Out& impl, Out& ref)
+{
+    return dispatch_keys<etl::greater<SK>, etl::greater<TK>, std::greater<int>, false>(fam, in, impl, ref);
+}
+#endif
+#if C09_HAS(5)
+bool c09::keys_tless(std::string const& fam, Toks& in, Out& impl, Out& ref)
+{
+    return dispatch_keys<etl::less<>, etl::less<>, std::less<>, true>(fam, in, impl, ref);
+}
+bool c09::keys_half(std::string const& fam, Toks& in, Out& impl, Out& ref)
+{
+    return dispatch_keys<half_less, half_less, half_less, false>(fam, in, impl, ref);
+}
+#endif
+
 #if C09_HAS(0)
 bool vh::run_case(std::string const& op, Toks& in, Out& impl, Out& ref)
 {
@@ -908,6 +1104,13 @@ bool vh::run_case(std::string const& op, Toks& in, Out& impl, Out& ref)
     if (us == std::string::npos) { return false; }
     auto fam = op.substr(0, us);
     auto cmp = op.substr(us + 1);
+    if (fam == "sss" || fam == "fss" || fam == "fbs" || fam == "fbt") {
+        if (cmp == "less") { return c09::keys_less(fam, in, impl, ref); }
+        if (cmp == "greater") { return c09::keys_greater(fam, in, impl, ref); }
+        if (cmp == "tless") { return c09::keys_tless(fam, in, impl, ref); }
+        if (cmp == "half") { return c09::keys_half(fam, in, impl, ref); }
+        return false;
+    }
     if (cmp == "less") { return c09::part_less(fam, in, impl, ref); }
     if (cmp == "greater") { return c09::part_greater(fam, in, impl, ref); }
     if (cmp == "tless") { return c09::part_tless(fam, in, impl, ref); }
